@@ -81,7 +81,9 @@ class Check:
     rule = ('seeded random histories: a prefix of 0..8 story/item-level messages, then (85%) a roDelete, then one message of '
             'each class that the generator reaches (20+ of the 25, always including roReadyToAir, roMetadataReplace, roReplace, a '
             'second roDelete and a second roCreate); every step compared with the model; after every step str(ro) is re-read '
-            'and re-classified. distinct by (step class, completed before, outcome)')
+            'and re-classified; plus collections whose roCreate document is a completed running order that was written out, with 1..5 '
+            'further messages of random classes, merged strict and non-strict through from_strings / from_files. '
+            'distinct by (step class, completed before, outcome)')
 
     def matches_known(self, k, v):
         return False
@@ -164,11 +166,69 @@ class Check:
                             'impl': a[k:k + 1], 'model': b[k:k + 1], 'explained': bool(what)})
             if len(samples) < 2 and c.get('with_delete'):
                 samples.append({'ro': c['ro'], 'n_messages': len(c['msgs']), 'steps': [list(x) for x in a[:12]]})
+        # collection mode: a completed running order that was written out is the roCreate of a collection
+        cn, cdis, cvio = self.collections(tier, rng)
+        n += cn
         return {'evaluations': n, 'distinct': len(sigs), 'rule': self.rule, 'samples': samples, 'distribution': dist,
-                'disagreements': dis, 'violations': vio, 'extra': {'histories': len(cases)}}
+                'disagreements': dis + cdis, 'violations': vio + cvio, 'extra': {'histories': len(cases), 'collection_merges': cn}}
+
+    def collections(self, tier, rng):
+        import tempfile
+        import shutil
+        n, dis, vio = 0, [], []
+        tmp = tempfile.mkdtemp(prefix='mosverif-c07-')
+        try:
+            for k in range(6 if tier == 'quick' else 40):
+                sids = gens.STORY_IDS[:rng.randrange(1, 4)]
+                ro = to_text(gens.make_ro(sids, layout=rng.choice(gens.RO_LAYOUTS), message_id=1))
+                done = impl.run_add(ro, to_text(ro_delete(1)))
+                ro_done = X.tree_to_string(done['tree'])
+                _, items = gens.state_ids(ro)
+                others = one_of_each(sids, items, rng, 100)
+                others = [t for t in others if '<roCreate>' not in t and '<roDelete>' not in t]
+                rng.shuffle(others)
+                others = others[:rng.randrange(1, 6)]
+                docs = [ro_done] + others
+                for strict in (True, False):
+                    for how in ('strings', 'files'):
+                        io = impl.run_coll(docs, True, strict, how=how, tmpdir=tmp)
+                        n += 1
+                        what = None
+                        if 'err0' in io:
+                            what = 'a collection built on a completed running order was rejected (%s)' % io['err0']
+                        elif io['tree'] != done['tree']:
+                            what = 'merging into a completed running order (collection, %s) changed it' % ('strict' if strict else 'non-strict')
+                        elif strict and io['err'] != 'MosCompletedMergeError':
+                            what = 'strict collection merge into a completed running order raised %r, not MosCompletedMergeError' % io['err']
+                        elif not strict and (io['err'] or io['warns'].count('MosMergeNonStrictWarning') != len(others)):
+                            what = ('non-strict collection merge of %d messages into a completed running order: exception %r, %d MosMergeNonStrictWarning'
+                                    % (len(others), io['err'], io['warns'].count('MosMergeNonStrictWarning')))
+                        case = {'kind': 'coll', 'docs': docs, 'strict': strict, 'how': how}
+                        if what:
+                            vio.append({'what': what, 'case': case, 'impl': str((io.get('err'), io.get('warns'))), 'expected': 'refused'})
+                        mo, = engine.coll_cases([{'docs': docs, 'inc': True, 'strict': strict}])
+                        a = (io.get('err0'), io.get('err'), tuple(io.get('warns') or ()), io.get('tree'))
+                        b = (mo.get('err0'), mo.get('err'), tuple(mo.get('warns') or ()), mo.get('tree'))
+                        if a != b:
+                            dis.append({'case': case, 'impl': str(a[:3]), 'model': str(b[:3]), 'explained': bool(what)})
+        finally:
+            shutil.rmtree(tmp, ignore_errors=True)
+        return n, dis, vio
 
     def replay(self, rep):
         case = rep.get('case') or {}
+        if case.get('kind') == 'coll':
+            import tempfile
+            import shutil
+            tmp = tempfile.mkdtemp(prefix='mosverif-c07-')
+            try:
+                io = impl.run_coll(case['docs'], True, case['strict'], how=case.get('how', 'strings'), tmpdir=tmp)
+            finally:
+                shutil.rmtree(tmp, ignore_errors=True)
+            n_other = len(case['docs']) - 1
+            bad = ('err0' in io or (case['strict'] and io['err'] != 'MosCompletedMergeError') or
+                   (not case['strict'] and (io['err'] or io['warns'].count('MosMergeNonStrictWarning') != n_other)))
+            return {'violation': bool(bad), 'outcome': str((io.get('err0'), io.get('err'), io.get('warns')))}
         if 'msgs' not in case:
             return {'violation': False, 'note': str(rep.get('detail'))}
         steps = impl.run_hist(case['ro'], case['msgs'])
@@ -176,6 +236,8 @@ class Check:
         return {'violation': bool(what), 'what': what}
 
     def shrink(self, v):
+        if v['case'].get('kind') == 'coll':
+            return v
         case = dict(v['case'])
         msgs = list(case['msgs'])
         changed = True
